@@ -87,7 +87,9 @@ impl<'a> RenumVisitor<'a> {
             Integer(col, n) => (col, *n as f64),
             _ => return,
         };
-        if n > LineNumber::max_value() as f64 {
+        // -1 (RESTORE/RUN without operand) and the zero-width defaults of
+        // LIST/DELETE are not line numbers written in the source
+        if col.is_empty() || n < 0.0 || n > LineNumber::max_value() as f64 {
             return;
         }
         let n = n as u16;
